@@ -12,7 +12,7 @@ import (
 
 func init() { rt.Register("C06", jobC06) }
 
-var c06Kinds = []string{"good", "wrong-msg", "R-bitflip", "S-bitflip", "key-bitflip", "S+L", "S-top-slice-valid", "small-order-key", "small-order-R", "undecodable-key", "undecodable-R", "key31", "key-nil", "sig63", "sig-nil", "bad-prehash-or-nil-msg"}
+var c06Kinds = []string{"good", "wrong-msg", "R-bitflip", "S-bitflip", "key-bitflip", "S+L", "S-top-slice-valid", "small-order-key", "small-order-R", "undecodable-key", "undecodable-R", "key31", "key-nil", "sig63", "sig-nil", "bad-prehash-or-nil-msg", "mixed-order-valid"}
 
 // entries that are valid signatures under ANOTHER variant / context than the batch's options
 var c06CrossKinds = []string{"signed-as-pure", "signed-as-ctx-c", "signed-as-ctx-d", "signed-as-ph", "signed-as-ph-d", "model-signed-over-63-bytes", "model-signed-over-65-bytes", "model-signed-over-0-bytes"}
@@ -114,6 +114,10 @@ func mkEntry(kind string, slot int, vs variantSpec) triple {
 		S := new(big.Int).Mul(h, a)
 		S.Mod(S, ref.L)
 		t.sig = append(cp(R), ref.ToLE(S, 32)...)
+	case "mixed-order-valid":
+		// key = [a]B + T_i, R = [r]B + T_j with i, j != 0: accepted in both modes
+		m := mkTriple(a0, 1+s%7, 0, big.NewInt(int64(100+s)), 1+(s/7)%7, 0, t.msg, vs)
+		t = triple{cp(m.key), cp(m.msg), cp(m.sig)}
 	case "undecodable-key":
 		t.key = cp(firstUndecodable())
 	case "undecodable-R":
